@@ -846,6 +846,9 @@ class Interp(object):
                 if u["path"].endswith("SizedTypeProperties::ALIGN") or u["path"].endswith("SizedTypeProperties::SIZE"):
                     # only feed the debug-build pointer checks of vec![..]; any non-zero power of two works
                     return W(ty.get("w", 64), val=1)
+                if ty.get("path") == "std::thread::LocalKey":
+                    # a `thread_local!` key: per-thread storage, created by the macro's init function on first use
+                    return Opaque("localkey", (u["path"], u["key"]))
                 if o.get("val") is not None:
                     ck = ("const", u["key"])
                     if ck not in self.promoted_cache:
